@@ -109,8 +109,9 @@ class Scratch:
                 if not os.path.exists(target): raise BuildError('append target missing: ' + target)
                 if self.props is not None and fn not in self.props: continue
                 body = open(os.path.join(pdir, fn)).read()
+                gate = '#[cfg(test)]\n' if 'requires: cfg(test)' in body.split('\n', 3)[0] + body.split('\n', 3)[1] else ''
                 with open(target, 'a') as f:
-                    f.write('\n#[allow(dead_code, unused_imports, clippy::all)]\npub mod %s {\n%s\n}\n' % (m.group(2), body))
+                    f.write('\n%s#[allow(dead_code, unused_imports, unused_variables, clippy::all)]\npub mod %s {\n%s\n}\n' % (gate, m.group(2), body))
                 self._collect_sigs(body, 'APPEND:' + m.group(1).replace('-', '::') + '::' + m.group(2))
                 continue
             if self.props is not None and fn != 'common.rs' and fn not in self.props: continue
